@@ -265,7 +265,7 @@ def method_misuse(ob, case):
 @scenario('C18', 'function.misuse', 'torchtt._extras', quick=[dict(case=c) for c in (
         'kron_kinds', 'kron_bad', 'dot_not_tt', 'dot_ttm', 'dot_size', 'dot_order', 'dot_axis_order', 'dot_axis_size', 'bilinear_types', 'bilinear_kinds', 'bilinear_shape',
         'cat_ttm', 'cat_size_before', 'cat_size_after', 'cat_size_both', 'cat_order', 'pad_too_many', 'diag_not_tt', 'permute_not_tt', 'permute_len', 'permute_dup',
-        'permute_range', 'reshape_count', 'reshape_ttm_rows', 'reshape_ttm_cols', 'reshape_ttm_swap', 'save_not_tt', 'random_bad_R', 'random_len_R', 'zeros_not_list', 'ones_not_list', 'amen_mv_types', 'amen_mv_kinds', 'amen_mv_shape',
+        'permute_range', 'reshape_count', 'reshape_ttm_rows', 'reshape_ttm_cols', 'reshape_ttm_swap', 'reshape_ttm_second', 'save_not_tt', 'random_bad_R', 'random_len_R', 'zeros_not_list', 'ones_not_list', 'amen_mv_types', 'amen_mv_kinds', 'amen_mv_shape',
         'amen_solve_types', 'amen_solve_kinds', 'amen_solve_square', 'amen_solve_shape', 'riemann_kinds')],
           expect='raise', replay='misuse')
 def function_misuse(ob, case):
@@ -364,6 +364,15 @@ def function_misuse(ob, case):
             ex.assume(m * n == rows * cols)
             ex.assume(m != rows)
         ob.ret = ex.call(E('reshape'), [x, [(m, n)]])
+    elif case == 'reshape_ttm_second':
+        # first target mode equals the first source mode, the second trades rows against columns (total number of entries kept)
+        x = ob.tt('x', 2, ttm=True)
+        m, n = z3.Int('qm'), z3.Int('qn')
+        ex.assume(m >= 1)
+        ex.assume(n >= 1)
+        ex.assume(m * n == x.M_[1] * x.N_[1])
+        ex.assume(m != x.M_[1])
+        ob.ret = ex.call(E('reshape'), [x, [(x.M_[0], x.N_[0]), (m, n)]])
     elif case == 'save_not_tt':
         ob.ret = ex.call(E('save'), [T.atom_tensor('D', [3]), 'f'])
     elif case == 'random_bad_R':
